@@ -5,7 +5,7 @@ import os, subprocess, time
 def _sh(c):
     return subprocess.run(c, shell=True, text=True, stdout=subprocess.PIPE, stderr=subprocess.STDOUT)
 
-def acquire(n=8):
+def acquire(n=16):
     while True:
         for k in range(n):
             lock = "/tmp/verif-slot-%d.lock" % k
